@@ -90,6 +90,9 @@ def run(tier):
     for sd in seeds:
         _trace_check(drv, consts, n, sd, v, stats)
 
+    # P: TLAPS proves that every stage (for arbitrary masks / shifts / words) is a union-homomorphism: the lift from the generators
+    obligations, proved = vlib.run_tlapm("MortonProofs")
+
     if not design_ok and not v.violations:
         raise Broken("design check of the extracted network failed (%s) but the real code agrees with the "
                      "specification on every replayed vector and record: the model does not represent the code\n%s"
@@ -102,7 +105,8 @@ def run(tier):
         "exhaustive": True,
         "design_model": "MC_Morton: all x with <=2 bits x all y with <=1 bit of 32; network constants %s"
                         % ("extracted from morton.go" if extracted else "COMMITTED COPY (extraction failed)"),
-        "vectors_replayed": replayed,
+        "vectors_replayed": replayed, "tlaps_obligations": obligations, "tlaps_proved": proved,
+        "tlaps_module": "MortonProofs.tla: ShlLinear, ShrLinear, StageLinear, SqueezeLinear, CombineLinear, StageEmpty",
         "trace_records": stats["trace_records"], "trace_states": stats["trace_states"],
         "rule": "replay: every initial state of MC_Morton; trace: random/sparse/dense/run/power-of-two/over-32-bit words, "
                 "all 128 single-bit words, linearity, parent and child-key records",
